@@ -498,7 +498,7 @@ class Model:
         return Call('rm_directory', kw, effect)
 
     def op_add_link(self, op):
-        if op.get('symsrc') and self.rr:
+        if op.get('symsrc') and self.rr and not (op.get('symsrc') == 2 and self.has['udf'] and any(e['type'] == 'sym' for e in self.t['udf'].values())):
             # the old path names a Rock Ridge symlink: nothing to share, the call must be refused
             syms = sorted(p for p, e in self.t['iso'].items() if e['type'] == 'sym')
             if syms:
@@ -507,6 +507,15 @@ class Model:
                     nm = self._new_names(dict(op, k='bad'), False)
                     return Call('add_hard_link', {'iso_old_path': syms[op['symsrc'] % len(syms)], 'iso_new_path': join(parents['iso'], nm['iso']), 'rr_name': nm['rr']},
                                 lambda: None, note=('must-refuse', 'old-path-is-a-symlink'))
+        if op.get('symsrc') == 2 and self.has['udf']:
+            # ... or a UDF symlink (the new name would be a regular file holding the path components)
+            syms = sorted(p for p, e in self.t['udf'].items() if e['type'] == 'sym')
+            if syms:
+                gid, parents = self._parents(op, NSBIT['udf'])
+                if 'udf' in parents:
+                    nm = self._new_names(dict(op, k='bad'), False)
+                    return Call('add_hard_link', {'udf_old_path': syms[op.get('j', 0) % len(syms)], 'udf_new_path': join(parents['udf'], nm['udf'])},
+                                lambda: None, note=('must-refuse', 'old-path-is-a-udf-symlink'))
         b, ons, opath = self._blob_name(op)
         tns = [ns for ns in self.enabled()][op.get('to', 0) % len(self.enabled())]
         gid, parents = self._parents(op, NSBIT[tns])
